@@ -226,6 +226,7 @@ type FakeChannel struct {
 	BufLimit int
 	Keep     bool
 	Refuse   bool
+	RefuseN  int // the first RefuseN dials are refused, later ones connect
 	Expect   func(connIdx int) func(off int) byte
 	// BlockDial, if non-nil, makes OpenConnection wait until it is closed: a target whose
 	// connect never completes (black-holed address)
@@ -249,7 +250,7 @@ func (f *FakeChannel) OpenConnection() (net.Conn, error) {
 	f.mu.Lock()
 	defer f.mu.Unlock()
 	f.Opens++
-	if f.Refuse {
+	if f.Refuse || f.Opens <= f.RefuseN {
 		return nil, fmt.Errorf("connection refused (fake channel %s)", f.ChName)
 	}
 	idx := len(f.Targets)
